@@ -6,6 +6,12 @@
     -> c16_poszero_uses_raw_site_mask : bool.  The correspondence evaluates the model
     variant that the code currently has (C16.Model.vcf_body_current), so the one-word
     repair in /repo is followed without editing the model;
+  * __make_sample_mapping: whether a tree sequence without sample nodes is rejected with a
+    ValueError (`if ts.num_samples == 0: raise ValueError`) -> c16_zero_samples_rejected, and
+    whether an individual must consist of sample nodes only (`is_sample != {True}`) or merely of
+    one kind (`len(is_sample) != 1`) -> c16_individuals_must_be_samples.  Both are false at the
+    pinned commit (known low-severity findings); the repairs in /verif/fixes/C16-*.diff flip
+    them and the model follows;
   * the allele limit of VcfWriter.write (`if variant.num_alleles > 9`) -> c16_max_alleles.
 """
 import ast
@@ -45,5 +51,37 @@ def facts(read, die, define):
             limits.append(int(node.comparators[0].value))
     if len(limits) != 1:
         die("facts_c16: expected exactly one `num_alleles > k` test in VcfWriter.write")
-    return ["Definition c16_poszero_uses_raw_site_mask : bool := %s." % ("true" if inverted[0] else "false"),
+    mapping = [n for n in cls[0].body if isinstance(n, ast.FunctionDef) and n.name.endswith("__make_sample_mapping")]
+    if len(mapping) != 1:
+        die("facts_c16: VcfWriter.__make_sample_mapping not found")
+    zero_guard, strict = [], []
+    for st in ast.walk(mapping[0]):
+        if not (isinstance(st, ast.If) and st.body and isinstance(st.body[0], ast.Raise)):
+            continue
+        t = st.test
+        if not (isinstance(t, ast.Compare) and len(t.ops) == 1):
+            continue
+        names = {n.attr for n in ast.walk(t) if isinstance(n, ast.Attribute)} | {n.id for n in ast.walk(t) if isinstance(n, ast.Name)}
+        if "num_samples" in names and isinstance(t.ops[0], ast.Eq) and isinstance(t.comparators[0], ast.Constant) \
+                and t.comparators[0].value == 0 and isinstance(t.left, ast.Attribute):
+            exc = st.body[0].exc
+            if not (isinstance(exc, ast.Call) and getattr(exc.func, "id", None) == "ValueError"):
+                die("facts_c16: the zero-sample guard does not raise ValueError")
+            zero_guard.append(True)
+        if "is_sample" in names:
+            if (isinstance(t.left, ast.Call) and getattr(t.left.func, "id", None) == "len"
+                    and isinstance(t.ops[0], ast.NotEq) and isinstance(t.comparators[0], ast.Constant)
+                    and t.comparators[0].value == 1):
+                strict.append(False)
+            elif (isinstance(t.left, ast.Name) and t.left.id == "is_sample" and isinstance(t.ops[0], ast.NotEq)
+                  and isinstance(t.comparators[0], ast.Set) and len(t.comparators[0].elts) == 1
+                  and isinstance(t.comparators[0].elts[0], ast.Constant) and t.comparators[0].elts[0].value is True):
+                strict.append(True)
+            else:
+                die("facts_c16: unrecognised test on is_sample in __make_sample_mapping")
+    if len(strict) != 1 or len(zero_guard) > 1:
+        die("facts_c16: expected exactly one is_sample test and at most one zero-sample guard")
+    return ["Definition c16_zero_samples_rejected : bool := %s." % ("true" if zero_guard else "false"),
+            "Definition c16_individuals_must_be_samples : bool := %s." % ("true" if strict[0] else "false"),
+            "Definition c16_poszero_uses_raw_site_mask : bool := %s." % ("true" if inverted[0] else "false"),
             "Definition c16_max_alleles : Z := %d." % limits[0]]
